@@ -3,12 +3,15 @@
   The size-meta invariant of a hash over the sorted reference store (`Z.HashInv`), with the key codec
   abstracted by exactly the facts C12 proves of the real encoders (field keys injective, meta keys
   injective and never field keys, range exactness): stored size = number of field keys in the
-  collection's range, meta present iff non-empty — preserved by HSET. The equalities on the real store
+  collection's range, meta present iff non-empty — preserved by HSET and by HINCRBY (`Z.HashIncr`: new field,
+  existing field, error; also on the raw increment argument). The equalities on the real store
   (all five types, all enumerating commands) are judged by the `inv` oracle of protocol `data` after
   every apply event.
 -/
 import ZanVerif.Data.HashInv
 import ZanVerif.Data.HashRef
+import ZanVerif.Data.HashIncr
+import ZanVerif.Data.HashToy
 
 namespace Z.Props.C09
 
@@ -22,5 +25,56 @@ theorem C09_hlen_eq_enumeration (E : Z.HashInv.Enc) {m : List Z.Ref.KV} (inv : Z
     Z.HashInv.hlen E m k = (Z.Ref.scan m (E.start k) (E.stop k)).length ∧
     (Z.Ref.get m (E.metaK k) = none ↔ (Z.Ref.scan m (E.start k) (E.stop k)).length = 0) :=
   ⟨inv.size k, inv.metaIff k⟩
+
+
+/-- HINCRBY preserves: HLEN = number of stored fields, meta present ⇔ non-empty — whether it creates the field (size
+    meta + 1 in the same step), overwrites it (size meta untouched), or answers an error (nothing written) -/
+theorem C09_inv_hincrby (E : Z.HashInv.Enc) {m : List Z.Ref.KV} (inv : Z.HashInv.Inv E m) (k f : Z.Ref.Bytes) (d : Int) :
+    Z.HashInv.Inv E (Z.HashIncr.hincrby E m k f d).1 := Z.HashIncr.inv_hincrby E inv k f d
+
+/-- … and so does the command on the raw increment argument (ill-formed increments included) -/
+theorem C09_inv_hincrby_cmd (E : Z.HashInv.Enc) {m : List Z.Ref.KV} (inv : Z.HashInv.Inv E m) (k f dtxt : Z.Ref.Bytes) :
+    Z.HashInv.Inv E (Z.HashIncr.hincrbyCmd E m k f dtxt).1 := Z.HashIncr.inv_hincrbyCmd E inv k f dtxt
+
+/-- the invariant holds in every state reachable from the empty store by HSET and HINCRBY commands -/
+inductive HOp
+  | hset (k f v : Z.Ref.Bytes)
+  | hincrby (k f dtxt : Z.Ref.Bytes)
+
+def applyOp (E : Z.HashInv.Enc) (m : List Z.Ref.KV) : HOp → List Z.Ref.KV
+  | .hset k f v => Z.HashInv.hset E m k f v
+  | .hincrby k f dtxt => (Z.HashIncr.hincrbyCmd E m k f dtxt).1
+
+theorem C09_inv_reachable_hset_hincrby (E : Z.HashInv.Enc) (ops : List HOp) :
+    Z.HashInv.Inv E (ops.foldl (applyOp E) []) := by
+  suffices h : ∀ m, Z.HashInv.Inv E m → Z.HashInv.Inv E (ops.foldl (applyOp E) m) from h [] (Z.HashIncr.inv_empty E)
+  induction ops with
+  | nil => intro m h; exact h
+  | cons o t ih =>
+    intro m h
+    apply ih
+    cases o with
+    | hset k f v => exact Z.HashInv.inv_hset E h k f v
+    | hincrby k f dtxt => exact Z.HashIncr.inv_hincrbyCmd E h k f dtxt
+
+/-- after HINCRBY the reported count is what the enumeration gives -/
+theorem C09_hincrby_hlen_eq_enumeration (E : Z.HashInv.Enc) {m : List Z.Ref.KV} (inv : Z.HashInv.Inv E m)
+    (k f : Z.Ref.Bytes) (d : Int) (k' : Z.Ref.Bytes) :
+    Z.HashInv.hlen E (Z.HashIncr.hincrby E m k f d).1 k' =
+      (Z.Ref.scan (Z.HashIncr.hincrby E m k f d).1 (E.start k') (E.stop k')).length :=
+  (C09_inv_hincrby E inv k f d).size k'
+
+/-- non-vacuity: with the concrete codec `Z.HashToy.toyEnc`, HINCRBY h f 5 on the empty store creates the field AND the
+    size meta (HLEN 1 = one enumerated field); HINCRBY h f x afterwards keeps HLEN 1; an ill-formed increment too -/
+example :
+    Z.HashInv.hlen Z.HashToy.toyEnc (Z.HashIncr.hincrby Z.HashToy.toyEnc [] [104] [102] 5).1 [104] = 1 ∧
+    (Z.Ref.scan (Z.HashIncr.hincrby Z.HashToy.toyEnc [] [104] [102] 5).1 (Z.HashToy.toyEnc.start [104])
+      (Z.HashToy.toyEnc.stop [104])).length = 1 ∧
+    Z.HashInv.hlen Z.HashToy.toyEnc
+      (Z.HashIncr.hincrbyCmd Z.HashToy.toyEnc (Z.HashIncr.hincrby Z.HashToy.toyEnc [] [104] [102] 5).1 [104] [102] [120]).1 [104] = 1 := by
+  decide
+
+example : Z.HashInv.Inv Z.HashToy.toyEnc (Z.HashIncr.hincrby Z.HashToy.toyEnc [] [104] [102] 5).1 :=
+  C09_inv_hincrby Z.HashToy.toyEnc (Z.HashIncr.inv_empty Z.HashToy.toyEnc) [104] [102] 5
 
 end Z.Props.C09
